@@ -92,6 +92,7 @@ def _rules():
         ],
         "block-wire": [
             lambda R, c, rid: wire_rules._wire(R, c, rid, ["Block", "Update", "IdSet", "IdRanges", "Range"]),
+            lambda R, c, rid: shared.string_column_units(R, c, rid),
         ],
         "merge": [
             lambda R, c, rid: c08.rule_e(R, c, rid),
@@ -138,13 +139,13 @@ DEPENDS = {
     "C03": ["splice", "conflict", "lookup", "content", "map-api", "text-units"],
     "C04": ["splice", "dependency", "stash-deletes", "lookup", "content", "block-iter", "update-events"],
     "C05": ["conflict", "squash", "splice", "dependency", "map-api", "merge", "delete-set", "update-events"],
-    "C06": ["dependency", "delete-set", "slice", "partial", "lookup", "content", "merge", "state-vector", "liveness"],
+    "C06": ["dependency", "delete-set", "slice", "partial", "lookup", "content", "merge", "state-vector", "liveness", "block-wire"],
     "C07": ["delete-set", "slice", "partial", "export", "liveness", "block-wire", "state-vector"],
     "C08": ["slice", "delete-set", "partial", "block-wire", "state-vector"],
-    "C09": ["slice", "partial", "content", "identity", "weak-wire"],
+    "C09": ["slice", "partial", "content", "identity", "weak-wire", "block-wire"],
     "C11": ["liveness"],
     "C12": ["splice", "squash", "lookup"],
-    "C13": ["splice", "delete-set", "lookup", "content", "export", "liveness", "state-vector"],
+    "C13": ["splice", "delete-set", "lookup", "content", "export", "liveness", "state-vector", "block-wire"],
     "C14": ["splice", "liveness", "lookup", "redone", "block-iter", "identity"],
     "C15": ["squash", "splice", "content", "block-wire", "liveness"],
     "C16": ["delete-set"],
